@@ -34,6 +34,10 @@
        R id id id          -> "PAIRS a:b a:b ..."
      POLAR M count                    shipped polar method on logged std::rand answers (M = RAND_MAX + 1)
        RS r r r ...        -> count lines "XS x s" (accepted x and radius), "USED m" | "ERR ..."
+     SCHED global N maxiter T         the iteration schedule of spe_embedding (Spe_Sched_Model): max_iteration = 0 is the
+                                      automatic schedule 2000 + floor(0.04 N N) in binary64 (x 3, local strategy)
+                                      -> "ITER n" (spe_iterations) and "SCHED ok" | "SCHED fail" (schedule_check on the
+                                         observed number T of shuffles), "DIV d" (divisor of the annealing line)
    every block's answer ends with "END" *)
 open C19_model
 
@@ -251,7 +255,15 @@ let () =
            Printf.printf "USED %d\n" (List.length rs - List.length rest)
          | e -> print_err e);
         print_string "END\n"
+      | "SCHED" :: [global; n; m; t] ->
+        let global = (global = "1") in
+        let n = nat_of_int (int_of_string n) and m = nat_of_int (int_of_string m) and t = nat_of_int (int_of_string t) in
+        Printf.printf "ITER %d\n" (int_of_nat (spe_iterations global n m));
+        Printf.printf "DIV %d\n" (int_of_nat (spe_schedule global n m).sc_div);
+        print_string (if schedule_check global n m t then "SCHED ok\n" else "SCHED fail\n");
+        print_string "END\n"
       | _ -> print_string "BADCMD\nEND\n"
     done
   with End_of_file -> ()
      | Failure m -> Printf.printf "DRIVERFAIL %s\nEND\n" m
+     | Stack_overflow -> print_string "DRIVERFAIL stack overflow\nEND\n"
